@@ -465,7 +465,7 @@ class Ref:
                     return None
                 carried = self.nested(op.after_region, fwd, env, depth)
         if isinstance(op, scf.ConditionOp):
-            return ("return", [V(op.cond)] + [V(v) for v in op.arguments])
+            return ("return", [V(op.condition)] + [V(v) for v in op.args])
         if n == "memref.store":
             m = V(op.operands[1])
             ixs = [V(v) for v in op.operands[2:]]
@@ -478,10 +478,32 @@ class Ref:
             ixs = [V(v) for v in op.operands[1:]]
             env[op.results[0]] = z3.Select(m.arr, m.idx(ixs))
             return None
-        if n in ("test.op", "test.termop") or n.startswith("printf.") or n == "vector.print":
+        if n in ("memref.alloc", "memref.alloca"):
+            k = self.ncalls
+            self.ncalls += 1
+            t = op.results[0].type
+            env[op.results[0]] = MemRef(f"alloc{k}", t.element_type, max(len(t.shape.data), 1))
+            return None
+        if n == "memref.dealloc":
+            return None
+        if n == "test.pureop":
+            # pure, deterministic: results are uninterpreted functions of the operands
+            args = [V(v) for v in op.operands]
+            for i, r in enumerate(op.results):
+                rs = z3.BitVecSort(width(r.type)) if is_int_type(r.type) else fsort(r.type)
+                if args:
+                    fsym = z3.Function(f"pure_{i}_{len(args)}", *[a.sort() for a in args], rs)
+                    env[r] = fsym(*args)
+                else:
+                    env[r] = z3.Const(f"pure_{i}_0", rs)
+            return None
+        if n in ("test.op", "test.termop") or n.startswith("printf.") or n == "vector.print" or type(op).__name__ == "UnregisteredOp" or n == "builtin.unregistered":
             # unknown / printing op: an observable effect on its operands; results are uninterpreted
             args = [V(v) for v in op.operands]
+            n = getattr(getattr(op, "op_name", None), "data", n)
             self.trace.append(Effect("op", n, [a for a in args if z3.is_expr(a)]))
+            if any(s_ for s_ in op.successors) or op.regions:
+                raise RefUnsupported(f"unknown op {n} with successors/regions")
             for i, r in enumerate(op.results):
                 k = self.ncalls
                 self.ncalls += 1
